@@ -12,7 +12,7 @@ import itertools
 
 from .. import gramspace as gs
 from .. import impl
-from . import c01
+from . import c01, c05
 
 PROPERTY = 'C02'
 LEVEL = 'model_checking'
@@ -196,8 +196,24 @@ def shard_features(m, items, tier='quick'):
         m.sample({'grammar': text, 'inputs': len(inputs), 'settings': [s for s, _ in SETTINGS]})
 
 
+def shard_cuts(m, items, inputs=()):
+    for name, exp, extra, _ne, _nx in items:
+        g = gs.Grammar(rules=[gs.Rule('start', exp)] + list(extra))
+        label = '; '.join(gs.render_rule(r) for r in g.rules)
+        try:
+            model = impl.compile_text(gs.render_grammar(g))
+            pcls, src = load_generated(model)
+        except Exception as ex:  # noqa
+            m.violation(f'generated-source-invalid/cut/{type(ex).__name__}', grammar=label, error=str(ex)[:300])
+            continue
+        m.add('programs')
+        for t in inputs:
+            compare(m, label, False, model, pcls, t, f'cut-{name}', {})
+
+
 def run(rc):
     quick = rc.tier == 'quick'
+    rc.pmap(shard_cuts, list(c05.programs(2, 1 if quick else 2)), inputs=list(gs.inputs(['1', '2'], 4 if quick else 6)))
     exps = c01.expressions(3 if quick else 4)
     if not quick:
         # 4-node trees: keep those the 3-node corpus cannot contain (names/overrides over composites, joins, nested closures)
@@ -209,7 +225,7 @@ def run(rc):
     c = rc.total.counts
     rc.rule = ('every expression tree of the C01 alphabet up to the node bound (plus helper rules) and a family of feature grammars '
                '(directives, keywords, parameters, Python-keyword rule names, upper-case rules, parseinfo, Python-literal-like tokens, quotes, '
-               'left recursion, based/included/overridden rules, constants, meta, skip-to, end-of-line, joins) x all inputs up to a length bound x '
+               'left recursion, based/included/overridden rules, constants, meta, skip-to, end-of-line, joins) and the C05 cut corpus x all inputs up to a length bound x '
                'parse-time settings {defaults, ignorecase, nameguard off, whitespace override, parseinfo} x semantics {none, tagging, identity}; '
                'model.parse vs loaded generated parser; non-trivial = accepted by the model')
     rc.coverage.update({
